@@ -446,7 +446,7 @@ func genInfoCase(t *rapid.T) *infoCase {
 		isize = lookups.SizeLarge
 	}
 	opt := lookups.Options{
-		Kind: kind, Mode: mode, MinLookups: -1, MaxLookups: 8, Size: size,
+		Kind: kind, Mode: mode, MinLookups: -1, MaxLookups: 8, Size: size, Allow: lookups.AllEncodableFormats(kind),
 		Skip: skipSite, Unimplemented: true, EmptyLookups: true,
 	}
 	nilLists := !stats.IsListed(prop, keyNilList)
